@@ -87,10 +87,23 @@ def sweeps():
     return '\n'.join(out) or 'not recorded yet'
 
 
+def findings(status):
+    k = json.load(open(os.path.join(HERE, 'known_findings.json')))['findings']
+    clean = lambda t: re.sub(r'\s+', ' ', str(t)).replace('|', '\\|')
+    if status == 'fixed':
+        rows = ['', '| property | commit | what failed |', '|---|---|---|']
+        rows += ['| %s | `%s` | %s |' % (f['property'], f['commit'], clean(f['what'])) for f in k if f['status'] == 'fixed']
+    else:
+        rows = ['', '| property | key | what fails, and why it is recorded rather than repaired |', '|---|---|---|']
+        rows += ['| %s | `%s` | %s |' % (f['property'], f['key'], clean(f['what'])) for f in k if f['status'] == 'open']
+    return '%d entries.\n' % (len(rows) - 3) + '\n'.join(rows)
+
+
 def main():
     p = os.path.join(HERE, 'DESIGN.md')
     s = open(p).read()
-    for key, fn in (('MUTANTS', mutants_table), ('MATRIX', matrix_table), ('SWEEPS', sweeps)):
+    for key, fn in (('MUTANTS', mutants_table), ('MATRIX', matrix_table), ('SWEEPS', sweeps),
+                    ('FIXED', lambda: findings('fixed')), ('OPEN', lambda: findings('open'))):
         a, b = '<!-- %s:BEGIN -->' % key, '<!-- %s:END -->' % key
         i, j = s.index(a) + len(a), s.index(b)
         s = s[:i] + '\n' + fn() + '\n' + s[j:]
